@@ -40,6 +40,11 @@ from . import core, gens
 
 OPS = ["==", "<", ">", "<=", ">="]
 TOL = 1e-9
+# The code drops probabilities below min_p = 1e-16 and works in double precision: a conditioned distribution whose
+# exact retained mass r is positive but tiny is either returned empty or normalised with a relative error ~1e-17/r.
+# Below ZERO the answer must be empty; up to TINY the normalised entries are not compared (the performances are).
+ZERO = 1e-17
+TINY = 1e-7
 
 
 # ------------------------------------------------------------------------------------------------
@@ -822,14 +827,25 @@ def judge(chk, cfg):
         retained = float(Fraction(rep["retained"]))
         chk.branch("superposed-input")
     chk.last_retained = retained
-    if retained <= 1e-13:
+    tiny = ZERO <= retained <= TINY
+    if retained < ZERO:
         # nothing retained: the conditioned distribution is empty (entries of the exact zero-mass list are noise)
         spec = dict(spec, results={})
         chk.branch("nothing-retained")
+    elif tiny:
+        chk.branch("retained-too-small-to-compare-entries")
+        spec = dict(spec, results={})
+        obs = dict(obs, results={})
+    if 0 < spec["phys"] <= TINY:
+        # P(. | filter passed) with a filter that almost never passes: quotient of two rounded tiny numbers
+        obs = dict(obs, logical=0.0, **{"global": None})
+        spec = dict(spec, logical=Fraction(0))
+        if model is not None:
+            model = dict(model, logical=Fraction(0))
     bad = compare(obs, spec)
     if not bad and model is not None:
         mm = dict(model)
-        if retained <= 1e-13:
+        if retained <= TINY:
             mm["results"] = {}
         bad_m = compare(obs, mm)
         if bad_m:
@@ -842,8 +858,11 @@ def judge(chk, cfg):
         if "err" in r2:
             return ("broken", "lean-rejects", f"driver rejected the evolve request: {r2['err']}")
         ret2 = Fraction(r2["spec"]["retained"])
-        sp2 = {"results": dist_of_json(r2["spec"]["results"]) if float(ret2) > 1e-13 else {}, "phys": 1,
+        sp2 = {"results": dist_of_json(r2["spec"]["results"]) if float(ret2) > TINY else {}, "phys": 1,
                "logical": ret2}
+        tiny2 = ZERO <= float(ret2) <= TINY
+        if tiny2:
+            ev = dict(ev, results={})
         # A StateVector cannot carry the mixed state left after *discarding* heralded modes that hold
         # distinguishable photons (post_select_statevector then adds amplitudes of outputs differing only by the
         # tags of the discarded photons): the squared amplitudes are compared when the representation is
@@ -862,7 +881,7 @@ def judge(chk, cfg):
                 d2 = chk.real.call("direct_oracle", one, 0)
             except Exception as e:  # noqa: BLE001
                 return ("broken", "direct-oracle-crash", f"{type(e).__name__}: {e}")
-            if not faithful:
+            if not faithful or tiny2:
                 d2 = dict(d2, results=ev["results"])
             dbad2 = compare(ev, d2)
             if dbad2:
@@ -880,6 +899,10 @@ def judge(chk, cfg):
     try:
         d = chk.real.call("direct_oracle", cfg, eff)
         if d["phys"] <= 1e-13 and not dets_all_pnr(cfg.get("dets")):
+            d = dict(d, logical=0.0)
+        if tiny:
+            d = dict(d, results={})
+        if 0 < spec["phys"] <= TINY:
             d = dict(d, logical=0.0)
         dbad = compare(obs, d)
     except Exception as e:  # noqa: BLE001
